@@ -161,15 +161,26 @@ Fixpoint own_block_schemata (s : spec) : list (list Z * nat) :=
   end.
 
 (* the visit of ImpliedSchema: own schemata first, then the same-body children *)
-Fixpoint attr_schemata (s : spec) : list (list Z * bool) :=
+Fixpoint attr_schemata_raw (s : spec) : list (list Z * bool) :=
   own_attr_schemata s ++
   match s with
-  | SObject fs => flat_map (fun p => attr_schemata (snd p)) fs
-  | STuple ss => flat_map attr_schemata ss
-  | SDefault p d => attr_schemata p ++ attr_schemata d
-  | STransformExpr w _ _ _ | STransformFunc w _ | SRefine w _ | SValidate w _ => attr_schemata w
+  | SObject fs => flat_map (fun p => attr_schemata_raw (snd p)) fs
+  | STuple ss => flat_map attr_schemata_raw ss
+  | SDefault p d => attr_schemata_raw p ++ attr_schemata_raw d
+  | STransformExpr w _ _ _ | STransformFunc w _ | SRefine w _ | SValidate w _ => attr_schemata_raw w
   | _ => []
   end.
+
+(* "a body schema must name it once": an attribute met again is merged into its
+   first entry, OR-ing Required (hcldec/schema.go, attrIdx) *)
+Fixpoint merge_attr (n : list Z) (req : bool) (acc : list (list Z * bool)) : list (list Z * bool) :=
+  match acc with
+  | [] => [(n, req)]
+  | (k, r) :: rest => if str_eqb n k then (k, r || req) :: rest else (k, r) :: merge_attr n req rest
+  end.
+Definition merge_attrs (l : list (list Z * bool)) : list (list Z * bool) :=
+  fold_left (fun acc a => merge_attr (fst a) (snd a) acc) l [].
+Definition attr_schemata (s : spec) : list (list Z * bool) := merge_attrs (attr_schemata_raw s).
 
 Fixpoint block_schemata (s : spec) : list (list Z * nat) :=
   own_block_schemata s ++
@@ -249,7 +260,10 @@ Fixpoint wf_at (top : bool) (s : spec) : Prop :=
       wf_at false n /\ labels_consecutive n = true /\ schema_consistent n
   | SBlockMap _ ls n =>
       (* "There must be at least one given label name"; "cty.DynamicPseudoType
-         attributes may not be used inside a BlockMapSpec" *)
+         attributes may not be used inside a BlockMapSpec": exactly the Go check
+         ImpliedType(s).HasDynamicTypes(), i.e. no dynamic part at ANY depth of the
+         nested implied type (a dynamically typed AttrSpec, an ExprSpec, a
+         BlockTupleSpec or BlockObjectSpec anywhere below make it panic) *)
       ls <> [] /\ has_dyn (implied_type n) = false /\
       wf_at false n /\ labels_consecutive n = true /\ schema_consistent n
   | SBlockObject _ ls n =>
@@ -266,22 +280,3 @@ Fixpoint wf_at (top : bool) (s : spec) : Prop :=
 
 (* a spec given to hcldec.Decode / PartialDecode *)
 Definition wf_spec (s : spec) : Prop := wf_at true s /\ schema_consistent s.
-
-(* An undocumented requirement used by decode_no_panic: BlockAttrsSpec with an
-   element type containing cty.DynamicPseudoType panics in cty.MapVal when the
-   attributes have different types. *)
-Fixpoint static_block_attrs (s : spec) : Prop :=
-  match s with
-  | SObject fs =>
-      (fix all (l : list (list Z * spec)) : Prop :=
-         match l with [] => True | p :: r => static_block_attrs (snd p) /\ all r end) fs
-  | STuple ss =>
-      (fix all (l : list spec) : Prop :=
-         match l with [] => True | x :: r => static_block_attrs x /\ all r end) ss
-  | SBlockAttrs _ ety _ => has_dyn ety = false
-  | SBlock _ n _ | SBlockList _ n _ _ | SBlockTuple _ n _ _ | SBlockSet _ n _ _
-  | SBlockMap _ _ n | SBlockObject _ _ n => static_block_attrs n
-  | SDefault p d => static_block_attrs p /\ static_block_attrs d
-  | STransformExpr w _ _ _ | STransformFunc w _ | SRefine w _ | SValidate w _ => static_block_attrs w
-  | _ => True
-  end.
